@@ -79,6 +79,10 @@ type reply struct {
 var mbox msg
 var ksema uint32
 
+// dumpReq asks the next task that is woken to record its own stack in hangDump (livelock report).
+var dumpReq bool
+var hangDump string
+
 //go:norace
 func clone(p []byte) []byte {
 	if len(p) == 0 {
